@@ -278,7 +278,7 @@ def run_check(prop, spec, tier, seed):
                 if os.path.exists(p):
                     os.remove(p)
     try:
-        okmods, errors, raw, failed = lake_build(mods + (['EPV.Gen.Registry'] if spec.get('corr_models') else []), timeout=3000)
+        okmods, errors, raw, failed = lake_build(mods + ['EPV.Gen.Registry', 'EPV.Gen.ModelRegistry'], timeout=3000)
     except subprocess.TimeoutExpired:
         log('lake build timed out')
         return 2
